@@ -43,17 +43,20 @@ def lines_of(text):
     return planoracle.canon(text[:-1] if text.endswith("\n") else text)
 
 
-def correspond_diff(ctx, name, plan, diff_text, cwd, describe):
-    blocks = {}
-    for f, n, before, after in planoracle.parse_diff(diff_text):
-        blocks[(planoracle.resolve(cwd, f), n)] = (planoracle.block_text(before), planoracle.block_text(after))
-    reqs = diffline_requests(plan)
-    if not reqs:
+def correspond_diff_batch(ctx, name, batch):
+    """batch: list of (plan, diff_text, cwd, describe).  One model process for all (file, line) groups."""
+    flat = []
+    for plan, diff_text, cwd, describe in batch:
+        blocks = {}
+        for f, n, before, after in planoracle.parse_diff(diff_text):
+            blocks[(planoracle.resolve(cwd, f), n)] = (planoracle.block_text(before), planoracle.block_text(after))
+        for (f, n), r in diffline_requests(plan):
+            flat.append((r, blocks.get((planoracle.resolve(cwd, f), n)), f, n, describe))
+    if not flat:
         return True
-    got = common.run_model([r for _, r in reqs])
-    ctx.cov["disagreements_checked"] += len(reqs)
-    for ((f, n), r), g in zip(reqs, got):
-        blk = blocks.get((planoracle.resolve(cwd, f), n))
+    got = common.run_model([x[0] for x in flat])
+    ctx.cov["disagreements_checked"] += len(flat)
+    for (r, blk, f, n, describe), g in zip(flat, got):
         gf = g.split()
         if gf[:2] == ["d", "panic"]:
             want = None
@@ -64,6 +67,10 @@ def correspond_diff(ctx, name, plan, diff_text, cwd, describe):
                                                "model": want})
             return False
     return True
+
+
+def correspond_diff(ctx, name, plan, diff_text, cwd, describe):
+    return correspond_diff_batch(ctx, name, [(plan, diff_text, cwd, describe)])
 
 
 def splice_files(plan, cwd, files):
@@ -137,19 +144,27 @@ def hostile_plans(rng, n):
 def cli_apply_case(ctx, rng, idx, case=None):
     """plan (writes plan.json, prints the diff) -> apply; returns dict or None"""
     if case is None:
-        swords, rwords = gen.pick_terms(rng)
-        tree = gen_c03.gen_tree(rng, swords, malformed=False)
-        search = gen.render(rng.choice(["snake", "camel", "kebab", "pascal"]), swords)
-        repl = gen.render(rng.choice(["snake", "camel", "kebab"]), rwords[: rng.randint(1, len(rwords))])
-        entry = "replace_lit" if idx % 5 == 4 else "plan"
-        if entry == "plan":
-            argv = ["plan", search, repl, "--preview", "diff", "--no-rename-paths"]
-            if rng.random() < 0.2:
-                argv += ["--include-styles", "title,dot"]
-        else:
-            argv = ["replace", "--no-regex", rng.choice([swords[0], search]), repl, "--preview", "diff", "--no-rename-files", "--no-rename-dirs", "--yes"]
-        case = {"op": "cli", "entry": entry, "tree": c03mod.tree_to_json(tree), "argv": argv + ["--no-auto-init"], "roots": []}
+        case = gen_cli_apply_case(rng, idx)
     tree = c03mod.tree_from_json(case["tree"])
+    return _cli_apply(case, tree)
+
+
+def gen_cli_apply_case(rng, idx):
+    swords, rwords = gen.pick_terms(rng)
+    tree = gen_c03.gen_tree(rng, swords, malformed=False)
+    search = gen.render(rng.choice(["snake", "camel", "kebab", "pascal"]), swords)
+    repl = gen.render(rng.choice(["snake", "camel", "kebab"]), rwords[: rng.randint(1, len(rwords))])
+    entry = "replace_lit" if idx % 5 == 4 else "plan"
+    if entry == "plan":
+        argv = ["plan", search, repl, "--preview", "diff", "--no-rename-paths"]
+        if rng.random() < 0.2:
+            argv += ["--include-styles", "title,dot"]
+    else:
+        argv = ["replace", "--no-regex", rng.choice([swords[0], search]), repl, "--preview", "diff", "--no-rename-files", "--no-rename-dirs", "--yes"]
+    return {"op": "cli", "entry": entry, "tree": c03mod.tree_to_json(tree), "argv": argv + ["--no-auto-init"], "roots": []}
+
+
+def _cli_apply(case, tree):
     with common.scratch() as d:
         common.materialize(d, tree)
         before = c03mod.file_snapshot(d)
@@ -223,18 +238,19 @@ def run(ctx):
     for path in sorted(glob.glob(os.path.join(common.ROOT, "corpus", "C15", "*.json"))):
         replay_file(ctx, path, quiet=True)
 
-    # ---- (a) real plans in-process: correspondence + reference-splice oracle ------------------------------
-    n_scan = 1500 if T else 300
+    # ---- (a) real plans in-process: correspondence + reference-splice oracle (one harness, one model process) ----
+    n_scan = 1500 if T else 240
+    cases = []
     for i in range(n_scan):
         swords, rwords = gen.pick_terms(rng)
-        tree = gen_c03.gen_tree(rng, swords, malformed=(i % 6 == 5))
-        search = gen.render(rng.choice(["snake", "camel", "kebab", "pascal"]), swords)
-        repl = gen.render(rng.choice(["snake", "camel", "kebab"]), rwords[: rng.randint(1, len(rwords))])
-        styles = "-" if rng.random() < 0.7 else ",".join(rng.sample(["snake", "camel", "kebab", "pascal", "title", "dot", "screaming_snake"], 3))
-        with common.scratch() as d:
-            common.materialize(d, tree)
-            files = c03mod.file_snapshot(d)
-            out = common.run_impl([f"scanplan {hexs(d)} {hexs(search)} {hexs(repl)} {styles}"])[0].split()
+        cases.append({"tree": gen_c03.gen_tree(rng, swords, malformed=(i % 6 == 5)),
+                      "search": gen.render(rng.choice(["snake", "camel", "kebab", "pascal"]), swords),
+                      "replace": gen.render(rng.choice(["snake", "camel", "kebab"]), rwords[: rng.randint(1, len(rwords))]),
+                      "styles": "-" if rng.random() < 0.7 else
+                      ",".join(rng.sample(["snake", "camel", "kebab", "pascal", "title", "dot", "screaming_snake"], 3))})
+    batch = []
+    with common.scratch() as root:
+        for i, (c, (d, files, out)) in enumerate(zip(cases, c03mod.scan_batch(cases, root))):
             if out[1] != "ok":
                 ctx.count("scan:" + out[1])
                 continue
@@ -243,7 +259,7 @@ def run(ctx):
             groups = {}
             for m in plan["matches"]:
                 groups.setdefault((m["file"], m["line"]), []).append(m)
-            ctx.case(("scan", i, search, repl, styles, sorted(tree)), nontrivial=bool(groups))
+            ctx.case(("scan", i, c["search"], c["replace"], c["styles"], sorted(c["tree"])), nontrivial=bool(groups))
             for g in groups.values():
                 ctx.count("line:hunks=%d" % min(len(g), 4))
                 if any(len(m.get("replace", "")) != len(m["content"]) for m in g):
@@ -254,9 +270,8 @@ def run(ctx):
                     ctx.count("line:crlf")
                 if len(g[0].get("line_before", "")) > 9000:
                     ctx.count("line:long")
-            describe = {"tree": c03mod.tree_to_json(tree), "search": search, "replace": repl, "styles": styles}
-            if not correspond_diff(ctx, "diffline: render_plan(Diff) vs Hunks.diffAfterText", plan, diff, d, describe):
-                break
+            describe = {"tree": c03mod.tree_to_json(c["tree"]), "search": c["search"], "replace": c["replace"], "styles": c["styles"]}
+            batch.append((plan, diff, d, describe))
             after = splice_files(plan, d, files)
             if after is None:
                 # the plan does not fit the file (C03's subject): the 'before' sides can still be judged
@@ -268,10 +283,12 @@ def run(ctx):
                 ctx.violation("input", {"op": "scan", **describe}, expected="preview == file after apply (reference splice)",
                               observed=probs[:5], note=probs[0]["detail"])
                 return
+    correspond_diff_batch(ctx, "diffline: render_plan(Diff) vs Hunks.diffAfterText", batch)
     # ---- (b) hostile hand-made plans: correspondence only --------------------------------------------------
     hp = hostile_plans(rng, 1500 if T else 400)
     reqs = ["renderdiff " + hexs(json.dumps(p)) for _, p in hp]
     impl = common.run_impl(reqs)
+    batch = []
     for (kind, plan), r, out in zip(hp, reqs, impl):
         ctx.case(("hostile", r))
         f = out.split()
@@ -283,14 +300,16 @@ def run(ctx):
                 ctx.broke("correspondence", "renderdiff panic not predicted", {"plan": plan["matches"], "model": got})
                 break
             continue
-        if not correspond_diff(ctx, "diffline (hostile plans): render_plan(Diff) vs Hunks.diffAfterText", plan,
-                               unhex(f[2]).decode("utf-8", "replace"), "/", {"kind": kind, "hunks": plan["matches"]}):
-            break
+        batch.append((plan, unhex(f[2]).decode("utf-8", "replace"), "/", {"kind": kind, "hunks": plan["matches"]}))
+    correspond_diff_batch(ctx, "diffline (hostile plans): render_plan(Diff) vs Hunks.diffAfterText", batch)
 
     # ---- (c) CLI plan -> apply -----------------------------------------------------------------------------
+    from concurrent.futures import ThreadPoolExecutor
     n_cli = 300 if T else 70
-    for i in range(n_cli):
-        res = cli_apply_case(ctx, rng, i)
+    cli_cases = [gen_cli_apply_case(rng, i) for i in range(n_cli)]
+    with ThreadPoolExecutor(max_workers=8) as pool:
+        cli_results = list(pool.map(lambda c: cli_apply_case(ctx, None, 0, case=c), cli_cases))
+    for i, res in enumerate(cli_results):
         case = res["case"]
         ctx.count(f"cli:{case['entry']}:{res['status']}")
         if res["status"] not in ("ok", "apply_failed"):
